@@ -244,11 +244,14 @@ Proof.
   destruct n; cbn; [discriminate|]. apply DecimalPos.Unsigned.to_uint_nonnil.
 Qed.
 
+Lemma uint_bytes_all_digits : forall u, forallb is_digit (uint_bytes u) = true.
+Proof. induction u; cbn [uint_bytes forallb]; [reflexivity | ..]; rewrite IHu; reflexivity. Qed.
+
 Lemma stoul_dec : forall n, stoul (dec n) = Some n.
 Proof.
   intro n. unfold stoul, dec.
   destruct (uint_bytes_hd_digit (N.to_uint n) (to_uint_nonnil n)) as [b [r [E D]]].
-  rewrite E, D, <- E. f_equal. rewrite of_digits_uint. apply DecimalN.Unsigned.of_to.
+  rewrite E, <- E, uint_bytes_all_digits. f_equal. rewrite of_digits_uint. apply DecimalN.Unsigned.of_to.
 Qed.
 
 Lemma dec_nonempty : forall n, dec n <> [].
